@@ -56,11 +56,16 @@ def CompleteMem (q : Pat) : Prop :=
 theorem completeMem_simple (q : Pat) (hw : wf1 q = true) (h : CompleteMem q) : Complete1 q := by
   cases q <;> simp_all [CompleteMem, wf1]
 
-theorem complete_nested (qs : List Pat) (hall : ∀ q ∈ qs, CompleteMem q) : Complete1 (.nested qs) := by
-  intro hw f sc env0 hnf hm
-  have hwl : wfList qs = true := by simpa [wf1] using hw
-  cases f with
-  | list xs imp =>
+/-- `Complete1 (.nested qs)` restricted to forms that are lists. -/
+def CompleteL (qs : List Pat) : Prop :=
+  ∀ (xs : List Sexp) (imp : Bool) (sc : List Name) (env0 : Env),
+    normal (.list xs imp) = true → matchSingle sc (.nested qs) (.list xs imp) = true →
+    ∃ e, collectOne (.nested qs) (.list xs imp) env0 = .ok e
+
+theorem completeL_of_wf (qs : List Pat) (hall : ∀ q ∈ qs, CompleteMem q) (hwl : wfList qs = true) :
+    CompleteL qs := by
+  intro xs imp sc env0 hnf hm
+  focus
     have hnl : normalList xs = true := by simp only [normal, Bool.and_eq_true] at hnf; exact hnf.1
     have hnorm : ∀ x ∈ xs, normal x = true := fun x hx => normal_mem _ x hx hnl
     rw [collectOne_nested_list]
@@ -69,9 +74,7 @@ theorem complete_nested (qs : List Pat) (hall : ∀ q ∈ qs, CompleteMem q) : C
         obtain ⟨himp, hms⟩ := match_simples_facts sc qs xs imp hs hnf hm
         subst himp
         have hlen := matchSimples_length sc qs xs hms
-        have hnot : ¬ xs.length + 1 < qs.length := by omega
-        simp only [hnot, if_false]
-        have := collectItems_simples (xs.length + 1 - qs.length) xs.length false [] qs xs [] env0 hs hlen
+        have := collectItems_simples (expectedCaptures qs xs.length false) xs.length false [] qs xs [] env0 hs hlen
         simp only [List.append_nil] at this
         rw [this]
         obtain ⟨e, he⟩ := simples_complete sc qs xs env0 hs
@@ -87,13 +90,11 @@ theorem complete_nested (qs : List Pat) (hall : ∀ q ∈ qs, CompleteMem q) : C
           | false => rfl
           | true => exact take_dropLast_of_le xs pre.length (by simpa using hle)
         rw [htake] at hms
-        have hnot : ¬ xs.length + 1 < (pre ++ [Pat.rest (Pat.var r)]).length := by simp; omega
-        simp only [hnot, if_false]
         have hta : xs.take pre.length ++ xs.drop pre.length = xs := List.take_append_drop _ _
         obtain ⟨e1, he1⟩ := simples_complete sc pre (xs.take pre.length) env0 hpre
           (fun q hq => completeMem_simple q (wfSimples_mem pre hpre q hq) (hall q (by simp [hq])))
           (fun x hx => hnorm x (List.mem_of_mem_take hx)) hms
-        have := collectItems_simples (xs.length + 1 - (pre ++ [Pat.rest (Pat.var r)]).length) xs.length imp
+        have := collectItems_simples (expectedCaptures (pre ++ [Pat.rest (Pat.var r)]) xs.length imp) xs.length imp
           [Pat.rest (Pat.var r)] pre (xs.take pre.length) (xs.drop pre.length) env0 hpre (by simp [hple])
         rw [hta] at this
         rw [this, he1]
@@ -114,10 +115,9 @@ theorem complete_nested (qs : List Pat) (hall : ∀ q ∈ qs, CompleteMem q) : C
             (xs.drop pre.length).drop (xs.length + 1 - (pre.length + 1 + post.length)),
             by rw [List.take_append_drop, List.take_append_drop], ha, hb, hms1, hallm, hms3⟩
         subst hxs
-        have hnot : ¬ (a ++ (mids ++ b)).length + 1 < (pre ++ Pat.many sub :: post).length := by simp; omega
-        have hexp : (a ++ (mids ++ b)).length + 1 - (pre ++ Pat.many sub :: post).length = mids.length := by
-          simp; omega
-        simp only [hnot, if_false, hexp]
+        have hexp : expectedCaptures (pre ++ Pat.many sub :: post) (a ++ (mids ++ b)).length false = mids.length := by
+          simp [expectedCaptures, lastIsRest_append_many pre sub post hpost]; omega
+        rw [hexp]
         obtain ⟨e1, he1⟩ := simples_complete sc pre a env0 hpre
           (fun q hq => completeMem_simple q (wfSimples_mem pre hpre q hq) (hall q (by simp [hq])))
           (fun x hx => hnorm x (by simp [hx])) hms1'
@@ -146,10 +146,81 @@ theorem complete_nested (qs : List Pat) (hall : ∀ q ∈ qs, CompleteMem q) : C
           rw [hr]
           simp only [bindE_ok]
           exact hpostc _
-  | id a b => rw [match_nested_nonlist sc _ _ hwl (by intro xs imp h; cases h)] at hm; cases hm
-  | kw a => rw [match_nested_nonlist sc _ _ hwl (by intro xs imp h; cases h)] at hm; cases hm
-  | int a => rw [match_nested_nonlist sc _ _ hwl (by intro xs imp h; cases h)] at hm; cases hm
-  | bool a => rw [match_nested_nonlist sc _ _ hwl (by intro xs imp h; cases h)] at hm; cases hm
+    | manyRest pre sub post r hq hpre hsub hpost hr =>
+        subst hq
+        obtain ⟨hlen, hms1, hallm, hms3⟩ := match_many_rest_facts sc pre sub post r xs imp hpre hpost hm
+        have hpxlen : (if imp = true then xs.dropLast else xs).length =
+            (if imp = true then xs.length - 1 else xs.length) := by
+          cases imp <;> simp
+        have hxsplit : xs = (if imp = true then xs.dropLast else xs) ++
+            xs.drop (if imp = true then xs.dropLast else xs).length := by
+          cases imp with
+          | false => simp
+          | true => simp [List.dropLast_eq_take]
+        generalize hpx : (if imp = true then xs.dropLast else xs) = px at hlen hms1 hallm hms3 hpxlen hxsplit
+        generalize hrem : xs.drop px.length = rem at hxsplit
+        have ha := matchSimples_length sc pre _ hms1
+        have hb := matchSimples_length sc post _ hms3
+        obtain ⟨a, mids, b, hpxs, hal, hbl, hms1', hallm', hms3'⟩ :
+            ∃ a mids b, px = a ++ (mids ++ b) ∧ a.length = pre.length ∧ b.length = post.length ∧
+              matchSimples sc pre a = true ∧ (∀ m ∈ mids, matchSingle sc sub m = true) ∧
+              matchSimples sc post b = true :=
+          ⟨px.take pre.length, (px.drop pre.length).take (px.length - (pre.length + post.length)),
+            (px.drop pre.length).drop (px.length - (pre.length + post.length)),
+            by rw [List.take_append_drop, List.take_append_drop], ha, hb, hms1, hallm, hms3⟩
+        clear hms1 hallm hms3 ha hb hpx hrem
+        subst hpxs
+        have hxs : xs = a ++ (mids ++ (b ++ rem)) := by rw [hxsplit]; simp [List.append_assoc]
+        clear hxsplit
+        subst hxs
+        have hexp : expectedCaptures (pre ++ Pat.many sub :: (post ++ [Pat.rest (Pat.var r)]))
+            (a ++ (mids ++ (b ++ rem))).length imp = mids.length := by
+          simp only [expectedCaptures, lastIsRest_many_rest, if_true]
+          rw [← hpxlen]
+          simp
+          omega
+        rw [hexp]
+        obtain ⟨e1, he1⟩ := simples_complete sc pre a env0 hpre
+          (fun q hq => completeMem_simple q (wfSimples_mem pre hpre q hq) (hall q (by simp [hq])))
+          (fun x hx => hnorm x (by simp [hx])) hms1'
+        rw [collectItems_simples _ _ _ _ pre a _ _ hpre hal, he1]
+        simp only [bindE_ok]
+        have hpostc : ∀ e2, ∃ e, collectItems mids.length (a ++ (mids ++ (b ++ rem))).length imp
+            (post ++ [Pat.rest (Pat.var r)]) (b ++ rem) e2 = .ok e := by
+          intro e2
+          rw [collectItems_simples _ _ _ _ post b rem e2 hpost hbl]
+          obtain ⟨e, he⟩ := simples_complete sc post b e2 hpost
+            (fun q hq => completeMem_simple q (wfSimples_mem post hpost q hq) (hall q (by simp [hq])))
+            (fun x hx => hnorm x (by simp [hx])) hms3'
+          rw [he]
+          simp only [bindE_ok]
+          rw [collectItems_rest]
+          exact ⟨e.insert r (restVal rem imp (a ++ (mids ++ (b ++ rem))).length),
+            by simp [collectOne, collectItems_nil]⟩
+        by_cases h0 : mids.length = 0
+        · have hm0 : mids = [] := List.length_eq_zero_iff.1 h0
+          subst hm0
+          simp only [List.length_nil, List.nil_append] at hpostc ⊢
+          rw [collectItems_many0]
+          exact hpostc _
+        · rw [collectItems_manyS _ _ _ _ _ _ _ h0]
+          simp only [List.take_left', List.drop_left']
+          have hsubC : Complete1 sub := hall (.many sub) (by simp)
+          obtain ⟨rounds, hr'⟩ := mapE_ok_of_all (fun x => collectOne sub x {}) mids
+            (fun x hx => hsubC (wfMany_wf1 sub hsub) x sc {} (hnorm x (by simp [hx])) (hallm' x hx))
+          rw [hr']
+          simp only [bindE_ok]
+          exact hpostc _
+
+theorem complete_nested (qs : List Pat) (hall : ∀ q ∈ qs, CompleteMem q) : Complete1 (.nested qs) := by
+  intro hw f sc env0 hnf hm
+  simp only [wf1, Bool.and_eq_true, Bool.not_eq_true'] at hw
+  cases f with
+  | list xs imp => exact completeL_of_wf qs hall hw.1 xs imp sc env0 hnf hm
+  | id a b => rw [match_nested_nonlist sc _ _ hw.2 (by intro xs imp h; cases h)] at hm; cases hm
+  | kw a => rw [match_nested_nonlist sc _ _ hw.2 (by intro xs imp h; cases h)] at hm; cases hm
+  | int a => rw [match_nested_nonlist sc _ _ hw.2 (by intro xs imp h; cases h)] at hm; cases hm
+  | bool a => rw [match_nested_nonlist sc _ _ hw.2 (by intro xs imp h; cases h)] at hm; cases hm
 
 mutual
 theorem complete1_all : ∀ (p : Pat), Complete1 p
